@@ -27,7 +27,7 @@ def int_case(draw):
         g["p1"] = [draw(st.integers(-5, 5)) * e for _ in range(nd)]
         g["p2"] = [a + e * draw(st.integers(1, 3)) for a in g["p1"]]
         g["exp"] = 0
-    return {"g": g, "nvdim": draw(st.integers(1, 4)), "seed": draw(st.integers(0, 2**31)),
+    return {"g": g, "nvdim": draw(gen.nvdim_strategy()), "seed": draw(st.integers(0, 2**31)),
             "seed2": draw(st.integers(0, 2**31)),
             # narrow storage types: running sums leave the range of the dtype (counts, masks)
             "dtype": draw(st.sampled_from(["float", "float", "complex", "int", "uint8", "int8", "int16", "bool"])),
